@@ -85,12 +85,18 @@ func runCond(c *Case) *Obs {
 	ctxs := newCtxSet()
 	var wg sync.WaitGroup
 	quiet := true
+	// the gate tables are read by waiter goroutines: fill them completely before any goroutine starts
+	for _, op := range c.Ops {
+		if op[0].(string) == "wait" {
+			L.gates[num(op[1])] = newGate()
+			L.pos[num(op[1])] = op[3].(string)
+			ctxs.get(num(op[2]))
+		}
+	}
 	for _, op := range c.Ops {
 		switch op[0].(string) {
 		case "wait":
-			w, cid, pos := num(op[1]), num(op[2]), op[3].(string)
-			L.gates[w] = newGate()
-			L.pos[w] = pos
+			w, cid := num(op[1]), num(op[2])
 			ctx := ctxs.get(cid)
 			h.add("spawn", w)
 			wg.Add(1)
